@@ -1,7 +1,7 @@
 (* C15: key-management histories over the structural model of KeyStruct.v.
 
    pgpy/pgp.py  PGPKey.new / add_uid / del_uid / add_subkey / bind / certify / revoke / revoker / protect / unlock /
-                pubkey / __copy__ / parse+__bytearray__, the KeyAction decorator (pgpy/decorators.py), PGPUID.__or__ with
+                pubkey / __copy__ / parse+__bytearray__, the KeyAction decorator (pgpy/decorators.py), PGPKey.get_uid (exact match of a field, first match), PGPUID.__or__ with
                 SorteDeque.resort, PGPUID.selfsig / is_primary, PGPKey.expires_at / revocation_signatures.
 
    Signatures are symbolic: `sign` records who signed and the digest term (subject + hashed fields) that
@@ -74,6 +74,7 @@ Inductive op :=
 | OAddUid (k : nat) (isuid : bool) (c : list Z) (info : list Z) (primary : bool) (t : Z)
 | ORecertify (k : nat) (isuid : bool) (c : list Z) (info : list Z) (primary : bool) (t : Z)
 | OCertify (by_ k : nat) (isuid : bool) (c : list Z) (exp : option bool) (t : Z)
+| OCertifyKey (by_ k : nat) (exp : option bool) (t : Z)      (* key |= other.certify(key, exportable=...): a direct-key signature *)
 | ORevokeUid (k : nat) (isuid : bool) (c : list Z) (t : Z)
 | OAddSubkey (k : nat) (label : Z) (cansign : bool) (flags : Z) (t : Z)
 | ORevokeSubkey (k : nat) (label : Z) (t : Z)
@@ -187,6 +188,17 @@ Definition apply (w : world) (o : op) : world :=
           else ob
         | None => ob
         end)
+    | None => w
+    end
+  | OCertifyKey b i exp t =>
+    match nth_error w b with
+    | Some cert =>
+      upd w i (fun ob =>
+        let k := o_key ob in
+        if certify_ok cert then
+          set_key ob (with_sigs k (key_or_sig (p_sigs k)
+            (plain (sign (p_label (o_key cert)) T_DIRECT t exp false no_info (OnKey (p_label k))))))
+        else ob)
     | None => w
     end
   | ORevokeUid i isuid c t =>
